@@ -113,6 +113,7 @@ fn main() {
         }
         "c14" => conc::run_c14(&a),
         "c16" => conc::run_c16(&a),
+        "c15" => conc::run_c15(&a),
         "real-sleep" => {
             sentinel_core::verif::clock::off();
             let t = std::time::Instant::now();
